@@ -322,7 +322,7 @@ def io_cases(seed, n, kinds=None):
         n0 = r.choice([1, 2, 3, 5, 8])
         if kinds[i % len(kinds)] in ("update_shrink", "remove_most", "remove_some"):
             auto, n0 = True, max(n0, 3)          # the index must answer the query: storage-level shortcuts hang off that path
-        big = kinds[i % len(kinds)] == "update_newest_big"
+        big = kinds[i % len(kinds)] in ("update_newest_big", "insert_after_failed_update_big")
         if big:
             auto, n0 = True, r.choice([130, 131, 140])      # a database past 128 rows, index valid
         pts = g.points_batch(n0, in_order=True if big else r.random() < 0.7)
@@ -333,7 +333,14 @@ def io_cases(seed, n, kinds=None):
         ns = sorted(p["fields"]["n"] for p in pts if "n" in p["fields"])       # the selective ids actually stored by the first batch
         j = r.choice(ns) if ns else 1
         one = ("S", "tags", [("k", "id")], ("cmp", "==", ("s", str(j))))
-        if big:
+        if big and kinds[i % len(kinds)] == "insert_after_failed_update_big":
+            # an update that FAILS part-way (the fields callable raises at a point in the middle of a file larger than one I/O buffer), and
+            # straight afterwards - no read in between - the insert under test
+            for q_, p_ in enumerate(pts):
+                p_["fields"]["a"] = 2 if q_ == len(pts) // 2 else 1
+                p_["tags"]["pad"] = "p" * 60
+            hist.append(("update_all", {"fields": ("call", 3), "tags": ("static", {"a": "zz"})}))
+        elif big:
             pass
         elif i % 4 == 1:
             # the previous operations may leave rows that are logically stored but (if the library is wrong) not yet in the file
@@ -373,6 +380,8 @@ def io_cases(seed, n, kinds=None):
             # the LAST stored points become shorter rows (keys unset, short values): a rewrite that reuses the old file would leave a tail behind
             op = ("update", ("S", "fields", [("k", "n")], ("cmp", ">=", ("n", ns[len(ns) // 2] if len(ns) >= 2 else 1))),
                   {"unset_tags": ["a", "b", "k", "id"], "unset_fields": ["a", "b"], "fields": ("static", {"n": 1})}, None)
+        elif kind == "insert_after_failed_update_big":
+            op = ("insert", [g.point(pts[-1]["time"] + dbgen.SEC)], None)
         elif kind == "update_newest_big":
             # the NEWEST few rows of a database of more than 128 rows get a new field value (amending the latest readings)
             op = ("update", ("S", "time", [], ("cmp", ">=", ("t", pts[-3]["time"]))), {"fields": ("static", {"amended": 1})}, None)
